@@ -184,6 +184,11 @@ func loadWorld(repoDir, verifDir string, pkgDirs []string) (*World, error) {
 
 // ---------------------------------------------------------------------------
 
+type workItem struct {
+	prefix []int32
+	model  map[string]uint64
+}
+
 type Violation struct {
 	Harness   string            `json:"harness"`
 	Args      []int             `json:"args"`
@@ -235,7 +240,7 @@ type HarnessRun struct {
 	inInit   bool
 
 	mu           sync.Mutex
-	work         [][]int32
+	work         []workItem
 	active       int
 	cond         *sync.Cond
 	stats        runStats
@@ -342,11 +347,16 @@ func (h *HarnessRun) recordOutcomeViolation(in *Interp, kind, msg string) {
 }
 
 // runPath executes one path; returns sibling prefixes.
-func (h *HarnessRun) runPath(prefix []int32, sol *Solver, pathNo int64) (sibs [][]int32) {
-	in := &Interp{W: h.W, H: h, tf: NewTermFactory(), sol: sol, prefix: prefix,
+func (h *HarnessRun) runPath(item workItem, sol *Solver, pathNo int64) (sibs []workItem) {
+	in := &Interp{W: h.W, H: h, tf: NewTermFactory(), sol: sol, prefix: item.prefix, fb: map[int]bool{}, fv: map[int]uint64{},
 		globals: map[*ssa.Global]*Cell{}, ufs: map[string]*Term{}, reach: map[string]int{},
 		gwrites: map[string]bool{}, fnsSeen: map[*ssa.Function]int{}, wraps: map[string]Iface{}}
 	sol.Reset()
+	if item.model != nil {
+		in.setModel(item.model)
+	} else {
+		in.setModel(map[string]uint64{})
+	}
 	outcome := OReturn
 	msg := ""
 	func() {
@@ -393,8 +403,14 @@ func (h *HarnessRun) runPath(prefix []int32, sol *Solver, pathNo int64) (sibs []
 		h.recordInconclusive("feasibility query unknown (both sides kept)")
 	}
 	// sample for native trace validation
-	if (outcome == OReturn || outcome == OExit) && h.sampleEvery > 0 && pathNo%int64(h.sampleEvery) == 0 {
-		if r, model := sol.Check(nil, in.vars); r == Sat {
+	if (outcome == OReturn || outcome == OExit) && h.sampleEvery > 0 && (pathNo+h.seed)%int64(h.sampleEvery) == 0 {
+		model := in.model
+		if model == nil {
+			if r, m := sol.Check(nil, in.vars); r == Sat {
+				model = m
+			}
+		}
+		if model != nil {
 			ds, uf := h.modelDraws(in, model)
 			ps := &PathSample{Harness: h.cfg.Name, Args: h.args, Draws: ds, UF: uf, Observes: in.renderObs(model), Outcome: outcome.String()}
 			h.mu.Lock()
@@ -425,7 +441,7 @@ func (in *Interp) runInit(f *ssa.Function) {
 
 func (h *HarnessRun) explore(workers int, timeoutMs int) {
 	h.cond = sync.NewCond(&h.mu)
-	h.work = [][]int32{{}}
+	h.work = []workItem{{}}
 	var wg sync.WaitGroup
 	var pathNo int64
 	for i := 0; i < workers; i++ {
@@ -453,7 +469,7 @@ func (h *HarnessRun) explore(workers int, timeoutMs int) {
 				h.active++
 				h.mu.Unlock()
 				n := atomic.AddInt64(&pathNo, 1)
-				var sibs [][]int32
+				var sibs []workItem
 				if h.maxPaths > 0 && n > int64(h.maxPaths) {
 					h.mu.Lock()
 					h.truncated = true
